@@ -268,6 +268,10 @@ class Sched(object):
             if not opts:
                 if all(t.finished for t in self.threads):
                     self._finish('done')
+                elif all(t.finished or getattr(t, 'waiting_read', False) for t in self.threads):
+                    # every remaining thread sits in a blocking socket read on a peer that stays silent: like polling
+                    # for ever, this is the network's doing, not a deadlock among the threads
+                    self._finish('quiescent')
                 else:
                     self._finish('deadlock')
                 raise Poison()
